@@ -476,7 +476,7 @@ impl Property for C14 {
     fn meta(&self, _cfg: &Cfg, _acc: &Acc) -> Meta {
         Meta {
             level: "exploration",
-            rule: "abstract listings (0-60 entries: songs with any subset/order of duration, Time (before, after or without duration), Pos/Id/Prio/Range, Format, Last-Modified and 0-20 tag lines over 38 tag names (31 documented, 7 unknown incl. one with a dash, one of 32 and one of 83 characters) in canonical/lower/upper case with 1-4 repetitions, adjacent or interleaved; directory and playlist entries with and without Last-Modified at any position incl. several in a row; URLs with blanks, ': ', non-ASCII and the words file/directory/playlist) are encoded, parsed by the real protocol layer and decoded by Queue, QueueRange, CurrentSong, Find, GetPlaylist and ListAllIn; compared with the reference decoding of the ABSTRACT listing (one song per file entry in order; url, duration from duration else Time, Pos/Id/Prio/Range, format, last-modified raw (+ instant with chrono), per-tag values in line order) and with the convenience accessors; default and chrono build; every 8th case runs the listing command through the real client in a session (reply chopped into reads, issued right after a command list that failed part-way and again after the re-idle window, a second caller and notifications around); non-trivial = listing with >=2 songs or a non-song entry; distinct by listing lines".into(),
+            rule: "abstract listings (0-60 entries: songs with any subset/order of duration, Time (before, after or without duration), Pos/Id/Prio/Range, Format, Last-Modified and 0-20 tag lines over ~100 tag names (31 documented; unknown ones incl. one with a dash, one of 32 and one of 83 characters and 64 names that tagging tools use but MPD does not, e.g. Year, TrackNumber, Description) in canonical/lower/upper case with 1-4 repetitions, adjacent or interleaved; directory and playlist entries with and without Last-Modified at any position incl. several in a row; URLs with blanks, ': ', non-ASCII and the words file/directory/playlist) are encoded, parsed by the real protocol layer and decoded by Queue, QueueRange, CurrentSong, Find, GetPlaylist and ListAllIn; compared with the reference decoding of the ABSTRACT listing (one song per file entry in order; url, duration from duration else Time, Pos/Id/Prio/Range, format, last-modified raw (+ instant with chrono), per-tag values in line order) and with the convenience accessors; default and chrono build; every 8th case runs the listing command through the real client in a session (reply chopped into reads, issued right after a command list that failed part-way and again after the re-idle window, a second caller and notifications around); non-trivial = listing with >=2 songs or a non-song entry; distinct by listing lines".into(),
             nontrivial_set: "nontrivial",
             assumptions: vec![
                 "scalar attributes are not repeated within one song and URLs are non-empty (neither occurs in MPD output; the empty URL is the builder's own 'no song' sentinel)".into(),
